@@ -131,24 +131,18 @@ Definition is_alpha_ (c : Z) : bool :=
 Definition is_digit (c : Z) : bool := (48 <=? c) && (c <=? 57).
 Definition is_upper (c : Z) : bool := (65 <=? c) && (c <=? 90).
 
-(* the value group of varRegex is dot-star: it stops at the first line feed, and the regexp is not anchored at the end *)
-Fixpoint upto_lf (s : bytes) : bytes :=
-  match s with
-  | [] => []
-  | c :: s' => if c =? 10 then [] else c :: upto_lf s'
-  end.
-
 (* after the first name character: [_a-zA-Z0-9]* then '=' *)
 Fixpoint split_name (s : bytes) (acc : bytes) : option (bytes * bytes) :=
   match s with
   | [] => None
   | c :: s' =>
-      if c =? 61 then Some (rev acc, upto_lf s')
+      if c =? 61 then Some (rev acc, s')
       else if is_alpha_ c || is_digit c then split_name s' (c :: acc)
       else None
   end.
 
-(* interp.go varRegex: name = [_a-zA-Z][_a-zA-Z0-9]*, then '=', then dot-star; FindStringSubmatch *)
+(* interp.go varRegex, with the s flag: name = [_a-zA-Z][_a-zA-Z0-9]*, then '=', then the whole rest
+   of the operand (line feeds included); FindStringSubmatch *)
 Definition parse_assign (s : bytes) : option (bytes * bytes) :=
   match s with
   | c :: s' => if is_alpha_ c then split_name s' [c] else None
@@ -493,8 +487,7 @@ Arguments RFuel {U}. Arguments RUnmod {U}. Arguments ROk {U} o u s.
 Inductive lres (U : Type) :=
 | LFuel | LUnmod
 | LCont (u : U) (s : st) (flags : list bool)   (* go on with the next record *)
-| LStop (o : outcome) (u : U) (s : st).        (* the error value returned by execActions: exit, or an error
-                                                  (OErr, or next/nextfile escaping from a pattern) *)
+| LStop (o : outcome) (u : U) (s : st).        (* the error value returned by execActions: exit, or an error *)
 Arguments LFuel {U}. Arguments LUnmod {U}. Arguments LCont {U} u s flags. Arguments LStop {U} o u s.
 
 Inductive fin (U : Type) :=
@@ -533,36 +526,34 @@ Section Machine.
     | None => s
     end.
 
-  (* the pattern part of one iteration of "for i, action := range actions":
-     an error value to return, or (matched, new inRange[i], u, s) *)
-  Definition eval_pat (fuel : nat) (r : rule) (i : nat) (f : bool) (u : U) (s : st) : lres U + (bool * bool * U * st) :=
+  (* the pattern part of one iteration of "for i, action := range actions" *)
+  Inductive pres :=
+  | PFuel | PUnmod
+  | PStop (o : outcome) (u : U) (s : st)        (* return err: exit, or an error *)
+  | PSkip (f' : bool) (u : U) (s : st)          (* skipRecord: next / nextfile reached from the pattern
+                                                   expression; f' = inRange[i] as it stands *)
+  | PVal (matched f' : bool) (u : U) (s : st).  (* matched, new inRange[i] *)
+
+  (* one pattern expression: its truth value, or how it was left *)
+  Definition run_pat (fuel : nat) (b : blk) (fcur : bool) (u : U) (s : st) (k : bool -> U -> st -> pres) : pres :=
+    match run fuel (enter b u) s with
+    | RFuel => PFuel | RUnmod => PUnmod
+    | ROk (OVal v) u1 s1 => k v u1 s1
+    | ROk ONext u1 s1 => PSkip fcur u1 s1
+    | ROk ONextfile u1 s1 => PSkip fcur u1 (drop_file s1)
+    | ROk o u1 s1 => PStop o u1 s1
+    end.
+
+  Definition eval_pat (fuel : nat) (r : rule) (i : nat) (f : bool) (u : U) (s : st) : pres :=
     match rk r with
-    | PNone => inr (true, f, u, s)
-    | PExpr =>
-        match run fuel (enter (BPat i false) u) s with
-        | RFuel => inl LFuel | RUnmod => inl LUnmod
-        | ROk (OVal b) u1 s1 => inr (b, f, u1, s1)
-        | ROk o u1 s1 => inl (LStop o u1 s1)
-        end
+    | PNone => PVal true f u s
+    | PExpr => run_pat fuel (BPat i false) f u s (fun b u1 s1 => PVal b f u1 s1)
     | PRange =>
-        let start : lres U + (bool * U * st) :=
-          if f then inr (true, u, s)
-          else match run fuel (enter (BPat i false) u) s with
-               | RFuel => inl LFuel | RUnmod => inl LUnmod
-               | ROk (OVal b) u1 s1 => inr (b, u1, s1)
-               | ROk o u1 s1 => inl (LStop o u1 s1)
-               end in
-        match start with
-        | inl x => inl x
-        | inr (f1, u1, s1) =>
-          if f1 then
-            match run fuel (enter (BPat i true) u1) s1 with
-            | RFuel => inl LFuel | RUnmod => inl LUnmod
-            | ROk (OVal b) u2 s2 => inr (true, negb b, u2, s2)
-            | ROk o u2 s2 => inl (LStop o u2 s2)
-            end
-          else inr (false, false, u1, s1)
-        end
+        let stop (u1 : U) (s1 : st) : pres :=
+          run_pat fuel (BPat i true) true u1 s1 (fun b u2 s2 => PVal true (negb b) u2 s2) in
+        if f then stop u s
+        else run_pat fuel (BPat i false) false u s
+               (fun b u1 s1 => if b then stop u1 s1 else PVal false false u1 s1)
     end.
 
   (* the "for i, action := range actions" loop for one record.
@@ -573,8 +564,11 @@ Section Machine.
     | _ :: _, [] => LCont u s (rev done)          (* unreachable: one flag per rule *)
     | r :: rules', f :: fl' =>
       match eval_pat fuel r i f u s with
-      | inl x => x
-      | inr (matched, f', u1, s1) =>
+      | PFuel => LFuel
+      | PUnmod => LUnmod
+      | PStop o u1 s1 => LStop o u1 s1
+      | PSkip f' u1 s1 => LCont u1 s1 (rev (f' :: done) ++ fl')
+      | PVal matched f' u1 s1 =>
         if negb matched then exec_rules fuel rules' (S i) (f' :: done) fl' u1 s1
         else if negb (has_body r) then
           exec_rules fuel rules' (S i) (f' :: done) fl' u1 (add_out (OPrint (line s1)) s1)
@@ -636,6 +630,7 @@ Section Machine.
         end
     end.
 End Machine.
+Arguments PFuel {U}. Arguments PUnmod {U}. Arguments PStop {U} o u s. Arguments PSkip {U} f' u s. Arguments PVal {U} matched f' u s.
 
 (* ---------- the range-pattern case of execActions for side-effect-free patterns ---------- *)
 
